@@ -90,6 +90,10 @@ type c07Case struct {
 	EmptyName string `json:"member_with_empty_name,omitempty"`
 	// Empty: the claims-set with every claim absent ({} / a0)
 	Empty bool `json:"every_claim_absent,omitempty"`
+	// Nested (JSON): members named like the profile members, carrying
+	// registered names, but NOT at the top level: inside an unknown member's
+	// object, inside an array, inside the first software component
+	Nested int `json:"profile_members_below_top_level,omitempty"`
 	// Dup2 (JSON only): a SECOND "eat-profile" member, naming another
 	// registered profile, written after the first one
 	Dup2 string `json:"second_eat_profile_member,omitempty"`
@@ -350,6 +354,25 @@ func (c *c07Case) jsonDoc(withS2 bool) []byte {
 	}
 	if c.EmptyName != "" {
 		o.keys, o.vals = append(o.keys, ""), append(o.vals, jRaw(c.EmptyName))
+	}
+	if c.Nested != 0 {
+		inner := func() *jn {
+			return jObj("eat-profile", jStr(P2Name), "psa-profile", jStr(P1Name), "x-profile", jStr(OwnTagName))
+		}
+		if c.Nested&1 != 0 {
+			o.keys, o.vals = append([]string{"vendor"}, o.keys...), append([]*jn{inner()}, o.vals...)
+		}
+		if c.Nested&2 != 0 {
+			o.keys, o.vals = append(o.keys, "vendor-list"), append(o.vals, jArr(inner(), jStr("eat-profile"), jStr(P2Name)))
+		}
+		if c.Nested&4 != 0 {
+			for i, k := range o.keys {
+				if k == "psa-software-components" && o.vals[i].kind == 'a' && len(o.vals[i].items) > 0 && o.vals[i].items[0].kind == 'o' {
+					co := o.vals[i].items[0]
+					co.keys, co.vals = append(co.keys, "eat-profile", "psa-profile"), append(co.vals, jStr(ExtP2Name), jStr(P1Name))
+				}
+			}
+		}
 	}
 	if c.EscVal {
 		for i, v := range o.vals {
@@ -831,6 +854,9 @@ func TestC07_Dispatch(t *testing.T) {
 			}
 		}
 		c.Body = *body
+		if c.Format == "json" && rapid.IntRange(0, 5).Draw(t, "nestedprofile") == 0 {
+			c.Nested = rapid.IntRange(1, 7).Draw(t, "nestedprofile.where")
+		}
 		if c.Format == "json" && rapid.IntRange(0, 7).Draw(t, "emptyname") == 0 {
 			c.EmptyName = rapid.SampledFrom([]string{`"x"`, `"PSA_IOT_PROFILE_1"`, `"http://arm.com/psa/2.0.0"`, `5`, `true`, `[]`, `{}`}).Draw(t, "emptyname.val")
 		}
